@@ -188,6 +188,7 @@ type loopInfo struct {
 	modSet  map[string]bool
 	frameKeys []string
 	framePre  *State
+	elemOnly  map[string]bool // local slice variables written only element-wise in the loop
 }
 
 // abstractf: a pure value expression outside the modelled subset is replaced by an arbitrary value of its sort (an
